@@ -184,7 +184,7 @@ package dagcbor
 
 //@ func unmarshal1(na, tokSrc, budget, depth, options) (err)
 //@   requires na != nil && tokSrc != nil && budget != nil && depth >= 0 && tokSrc.strict && *budget <= 4611686018427387904 && 0 <= *budget
-//@   assigns *budget, tokSrc.rd.pos, foreign
+//@   assigns *budget, tokSrc.rd.pos, foreign, slot(na)
 //@   before unmarshal2 assert[C10] carg4 == depth
 //@   ensures[C10] err == nil ==> *budget >= 0
 //@   ensures[C10] *budget <= old(*budget)
@@ -194,7 +194,7 @@ package dagcbor
 //@   requires root(budget) != root(tk)
 //@   requires (tk.Type == tok.TMapOpen || tk.Type == tok.TArrOpen) ==> tk.Length >= 0
 //@   requires tk.Type == tok.TMapOpen || tk.Type == tok.TMapClose || tk.Type == tok.TArrOpen || tk.Type == tok.TArrClose || tk.Type == tok.TNull || tk.Type == tok.TString || tk.Type == tok.TBytes || tk.Type == tok.TBool || tk.Type == tok.TInt || tk.Type == tok.TUint || tk.Type == tok.TFloat64
-//@   assigns *budget, *tk, tokSrc.rd.pos, foreign
+//@   assigns *budget, *tk, tokSrc.rd.pos, foreign, slot(na)
 //@   ensures[C03] err == nil && old(tk.Tagged) ==> old(tk.Type) == tok.TBytes && old(tk.Tag) == 42 && options.AllowLinks && len(old(tk.Bytes)) >= 1 && old(tk.Bytes[0]) == 0
 //@   ensures[C03] err == nil ==> old(tk.Type) != tok.TMapClose && old(tk.Type) != tok.TArrClose
 //@   ensures[C10] err == nil ==> *budget >= 0
@@ -213,8 +213,8 @@ package dagcbor
 //@   before AssignFloat assert[C03] carg1 == tk.Float64
 //@   before NewUint assert[C03] carg0 == tk.Uint && tk.Uint > 9223372036854775807
 //@   before AssignLink assert[C03] tk.Tagged && tk.Tag == 42 && options.AllowLinks && len(tk.Bytes) >= 1 && tk.Bytes[0] == 0
-//@   loop 0 assigns *budget, *tk, tokSrc.rd.pos, foreign
-//@   loop 1 assigns *budget, *tk, tokSrc.rd.pos, foreign
+//@   loop 0 assigns *budget, *tk, tokSrc.rd.pos, foreign, slot(na)
+//@   loop 1 assigns *budget, *tk, tokSrc.rd.pos, foreign, slot(na)
 //@   loop 0 invariant na != nil && ma != nil && tokSrc.strict && 0 <= observedLen && observedLen <= expectLen && expectLen == old(tk.Length) && *budget >= 0 && *budget <= old(*budget) && old(tk.Type) == tok.TMapOpen && !old(tk.Tagged) && (seenKeys == nil || fresh(seenKeys))
 //@   loop 1 invariant na != nil && la != nil && tokSrc.strict && 0 <= observedLen && observedLen <= expectLen && expectLen == old(tk.Length) && *budget >= 0 && *budget <= old(*budget) && old(tk.Type) == tok.TArrOpen && !old(tk.Tagged)
 
